@@ -505,7 +505,8 @@ PLUMBING = ('as std::ops::Try>::branch', 'Option::<T>::ok_or', 'Option::<T>::unw
             'Result::<T, E>::expect', 'Option::<T>::as_ref', 'Option::<T>::as_mut', 'Option::<T>::take', 'as std::convert::Into<U>>::into',
             'as std::convert::From<T>>::from', 'as std::clone::Clone>::clone', 'as std::ops::Deref>::deref', 'as std::ops::DerefMut>::deref_mut',
             'Option::<T>::unwrap_or', 'Option::<T>::copied', 'Option::<T>::cloned', 'as std::borrow::Borrow<T>>::borrow',
-            'Vec::<T, A>::as_mut_slice', 'Vec::<T, A>::as_slice', 'Result::<T, E>::ok')
+            'Vec::<T, A>::as_mut_slice', 'Vec::<T, A>::as_slice', 'Result::<T, E>::ok', 'as std::iter::IntoIterator>::into_iter',
+            'std::iter::Iterator::by_ref')
 
 
 def roots(f, defs, op, depth=16, _seen=None):
